@@ -119,18 +119,17 @@ theorem maskRead_ne_fatal (c : CryptoOps) (kv : KeyView) (cfg : MaskCfg) (d : By
 
 /-! ## one container between clean bytes, through the compatibility wrapper -/
 
-/-- a serialized container between bytes that contain no `%`: when the callback replaces the
-container (handed to it together with the bytes after it) by `m`, the compatibility wrapper returns
-`before ++ m ++ after`; the "envelope seen" flag is set, so the legacy scans for bare envelopes do not run -/
-theorem onColumnCompat_container (cb : Callback) (k : Kind) (e pre suf m : Bytes)
+/-- a serialized container between bytes that contain no `%`: when the callbacks (the wrapper's own
+first) replace the container (handed to them together with the bytes after it) by `m`, the
+compatibility wrapper returns `before ++ m ++ after`; the "envelope seen" flag is set, so the legacy
+scans for bare envelopes do not run -/
+theorem onColumnCompat_container' (cbs : List Callback) (k : Kind) (e pre suf m : Bytes)
     (he : e ≠ []) (hlen : e.length + 12 < 2^63)
-    (hcb : cb (serBytes e k.id ++ suf) = .replaced m)
+    (hrun : runCallbacks (serBytes e k.id ++ suf) ((fun _ => Cb.same) :: cbs) = .replace m)
     (hpre : ∀ x ∈ pre, x ≠ 37) (hsuf : ∀ x ∈ suf, x ≠ 37) :
-    onColumnCompat [cb] (pre ++ serBytes e k.id ++ suf) = .ok (pre ++ m ++ suf) true := by
-  have hrun : runCallbacks (serBytes e k.id ++ suf) [fun _ => Cb.same, cb] = .replace m := by
-    simp [runCallbacks, hcb]
+    onColumnCompat cbs (pre ++ serBytes e k.id ++ suf) = .ok (pre ++ m ++ suf) true := by
   have hproc := c01_procAt_ser _ k e suf m he hlen hrun
-  have hskip := c01_skip_of_no_tag_byte [fun _ => Cb.same, cb] pre (serBytes e k.id ++ suf) hpre
+  have hskip := c01_skip_of_no_tag_byte ((fun _ => Cb.same) :: cbs) pre (serBytes e k.id ++ suf) hpre
   rw [← List.append_assoc] at hskip
   have hne : serBytes e k.id ≠ [] := by
     intro h
@@ -141,14 +140,21 @@ theorem onColumnCompat_container (cb : Callback) (k : Kind) (e pre suf m : Bytes
     rw [List.length_append, List.length_append, c01_serBytes_length]
     show 12 ≤ _
     omega
-  have hscan := c01_onColumn_scan [fun _ => Cb.same, cb] _ (by simp) hl
+  have hscan := c01_onColumn_scan ((fun _ => Cb.same) :: cbs) _ (by simp) hl
   rw [c01_scan_embedded _ pre (serBytes e k.id) suf m hskip hne (c01_headStep_of_procAt hproc)] at hscan
-  have hs' := c01_skip_of_no_tag_byte [fun _ => Cb.same, cb] suf [] hsuf
+  have hs' := c01_skip_of_no_tag_byte ((fun _ => Cb.same) :: cbs) suf [] hsuf
   simp only [List.append_nil] at hs'
   obtain ⟨hit, hsc⟩ := c01_scan_plain _ suf hs'
   rw [hsc] at hscan
   rw [onColumnCompat_eq, hscan]
   simp [ScanOut.prepend]
+
+theorem onColumnCompat_container (cb : Callback) (k : Kind) (e pre suf m : Bytes)
+    (he : e ≠ []) (hlen : e.length + 12 < 2^63)
+    (hcb : cb (serBytes e k.id ++ suf) = .replaced m)
+    (hpre : ∀ x ∈ pre, x ≠ 37) (hsuf : ∀ x ∈ suf, x ≠ 37) :
+    onColumnCompat [cb] (pre ++ serBytes e k.id ++ suf) = .ok (pre ++ m ++ suf) true :=
+  onColumnCompat_container' [cb] k e pre suf m he hlen (by simp [runCallbacks, hcb]) hpre hsuf
 
 /-! ## the masking callback -/
 
@@ -252,5 +258,78 @@ theorem maskRead_nonOwner (c : CryptoOps) (kvW kvR : KeyView) (cfg : MaskCfg) (v
   obtain ⟨e, _, he, rfl⟩ := c01_protect_ok hp hnm hnr
   rw [c01_serBytes_length] at hplen
   exact maskRead_other c kvR cfg _ e hpat hw he (by omega) hfail hpc
+
+
+/-! ## a value sealed under one symmetric key is not opened by other keys (key commitment) -/
+
+/-- the wrapped data key of a freshly built AcraBlock sits where `AcraBlock.Decrypt` looks for it -/
+theorem blockEncKey_build (kid ek ed : Bytes) (hkid : kid.length = 2) (hek : ek.length < 65536) :
+    blockEncKey (buildBlock kid ek ed) = ek := by
+  obtain ⟨_, _, _, _, _, f6, f7, _, _, _⟩ := c01_block_fields blockTag
+    (leBytes 8 (blockMin - Layout.blockTagBeginSize + ek.length + ed.length)) kid (leBytes 2 ek.length) ek ed []
+    (UInt8.ofNat Layout.blockKeyEncryptionBackendTypeSecureCell) (UInt8.ofNat Layout.blockDataEncryptionBackendTypeSecureCell)
+    c01_blockTag_length (by simp) hkid (by simp)
+  simp only [List.append_nil] at f6 f7
+  have h6 := (goSlice_eq_ok f6).2.2
+  have h7 := (goSlice_eq_ok f7).2.2
+  have hkl : blockKeyLen (buildBlock kid ek ed) = ek.length := by
+    unfold blockKeyLen buildBlock
+    rw [← h6]
+    exact c01_leVal_leBytes2 hek
+  unfold blockEncKey
+  rw [hkl]
+  unfold buildBlock
+  exact h7.symm
+
+/-- **Key commitment keeps strangers out** (`SealLaws` + `SealCommit`; no length law): a serialized
+container around an AcraBlock created under `key` is not opened by any key view whose list of
+symmetric keys does not contain `key`, whatever bytes follow the container. -/
+theorem createBlock_not_opened (c : CryptoOps) (hs : SealLaws c) (hcm : SealCommit c) (pk : KeyView)
+    (key m rnd e suf : Bytes)
+    (hkid : (keyId c key []).length = 2)
+    (hEncKey : ∀ encKey, c.enc key [] (rnd.take 32) ((rnd.drop 44).take 12) = some encKey → encKey.length < 65536)
+    (hlen : e.length + 12 < 2^64)
+    (hc : createBlock c key [] m rnd = .ok e)
+    (hdisj : ∀ ks, pk.syms = some ks → key ∉ ks) :
+    ∀ m', process c pk (serBytes e idBlock ++ suf) ≠ .ok m' := by
+  intro m' h
+  obtain ⟨encData, encKey, _, h2, rfl⟩ := c01_createBlock_ok hc
+  have hne : buildBlock (keyId c key []) encKey encData ≠ [] := by
+    intro h0
+    have := congrArg List.length h0
+    rw [c01_buildBlock_length _ _ _ hkid] at this
+    simp at this
+  obtain ⟨k, i, hd, hk⟩ := process_ok h
+  have hds := c01_deserialize_ser (id := idBlock) (k := .block) suf hne (by decide) hlen
+  rw [hds] at hd
+  simp only [Out.ok.injEq, Prod.mk.injEq] at hd
+  obtain ⟨rfl, hid⟩ := hd
+  cases k with
+  | struct => exact absurd hid (by decide)
+  | block =>
+    obtain ⟨_, _, _, ks, hks, hdec⟩ := decryptKind_block_ok hk
+    obtain ⟨_, _, _, key', hmem, dek, _, hkd, _⟩ := decryptBlock_ok_parts hdec
+    rw [blockEncKey_build _ _ _ hkid (hEncKey _ h2)] at hkd
+    obtain ⟨n, _, hn⟩ := hs.enc_of_dec _ _ _ _ hkd
+    obtain ⟨hkk, _, _⟩ := hcm.enc_inj _ _ _ _ _ _ _ _ _ hn h2
+    subst hkk
+    exact hdisj ks hks hmem
+
+/-- the same for what `protect` produced with the AcraBlock handler -/
+theorem protect_block_not_opened (c : CryptoOps) (hs : SealLaws c) (hcm : SealCommit c) (kvW pk : KeyView)
+    (key m rnd p suf : Bytes)
+    (hW : kvW.sym = some key) (hkid : (keyId c key []).length = 2)
+    (hEncKey : ∀ encKey, c.enc key [] (rnd.take 32) ((rnd.drop 44).take 12) = some encKey → encKey.length < 65536)
+    (hplen : p.length < 2^64)
+    (hnm : matchKind .block m = false) (hnr : registryMatch m = false)
+    (hp : protect c kvW .block m rnd = .ok p)
+    (hdisj : ∀ ks, pk.syms = some ks → key ∉ ks) :
+    ∀ m', process c pk (p ++ suf) ≠ .ok m' := by
+  obtain ⟨e, he, _, rfl⟩ := c01_protect_ok hp hnm hnr
+  obtain ⟨key', hk', hcb⟩ := c01_encryptKind_block he hnm
+  have hkk : key = key' := Option.some.inj (hW.symm.trans hk')
+  subst hkk
+  rw [c01_serBytes_length] at hplen
+  exact createBlock_not_opened c hs hcm pk key m rnd e suf hkid hEncKey (by omega) hcb hdisj
 
 end AcraModel.Envelope
